@@ -183,6 +183,30 @@ def check (c):
             return dict (status = 'violation', sig = 'rebuild', nontrivial = True, monitors = mon, violations = viol)
         raise
     mb = r ['model']
+    # ---- the same writer through the API with field requests (V/m pattern with power level and distance,
+    # gain file, near fields with power level): the answers must still follow the prompts
+    import argparse
+    MM  = common.repo ()
+    ns  = argparse.Namespace (mininec_version = spec ['version'])
+    kw  = dict (azi = MM.Angle (0, 90, 2), zen = MM.Angle (0, 30, 3))
+    variants = [ dict (kw, ff_abs = True, ff_dist = 1000.0), dict (kw, ff_abs = True, ff_dist = 50.0, pwr_ff = 100.0, gainfile = 'GAIN.OUT')
+               , dict (kw, near = [lam, lam, lam, 1, 1, 1, 2, 1, 1]), dict (near = [lam, 2 * lam, lam, 0.5, 0.5, 0.5, 1, 2, 1], pwr_nf = 10.0)]
+    for k, v in enumerate (variants):
+        try:
+            t2 = common.guarded (lambda: m.as_basic_input (ns, **v), 'as_basic_input')
+        except common.Repo_Crash as e:
+            if 'NotImplementedError' in e.key:
+                break
+            raise
+        mon ['prompts.api'] = mon.get ('prompts.api', 0) + 1
+        try:
+            r2 = basic_reader.read (t2, spec ['version'])
+        except basic_reader.Read_Error as e:
+            bad ('prompts.api', 'prompt-order', 'field requests %s: the answers do not follow the prompts: %s' % (sorted (set (v) - set (kw)), e))
+            continue
+        want_cmds = ['C'] + (['P'] if 'zen' in v else []) + (['N', 'N'] if 'near' in v else [])
+        if r2 ['commands'] != want_cmds:
+            bad ('prompts.api', 'commands', 'commands %s written for requests %s' % (r2 ['commands'], want_cmds))
     # ---- frequency, wires, pulses
     mon ['frequency'] = 1
     if abs (r ['f'] - m.f) > 1e-10 * m.f:
